@@ -1,0 +1,4 @@
+// verif hook H1: RocksDB >= 7 renamed utilities/backupable_db.h to
+// utilities/backup_engine.h. Only on the include path when built with -tags verif.
+#pragma once
+#include "rocksdb/utilities/backup_engine.h"
